@@ -433,6 +433,12 @@ EvalD(t, env) ==
                 e == EvalD(t.else, env)
                 all == cs \o ts \o <<e>>
             IN  IF \E i \in DOMAIN all : IsE(all[i]) THEN all[CHOOSE i \in DOMAIN all : IsE(all[i])] ELSE CaseDS(cs, ts, e)
+      [] t.k = "udo" ->     \* call of a user-defined operator: the body over the environment extended with the arguments (expressions are
+                            \* pure, so binding the argument VALUES is the same as substituting the argument expressions)
+            LET vals == [i \in DOMAIN t.args |-> EvalD(t.args[i], env)]
+            IN  IF \E i \in DOMAIN vals : IsE(vals[i]) THEN vals[CHOOSE i \in DOMAIN vals : IsE(vals[i])]
+                ELSE EvalD(t.body, [n \in DOMAIN env \cup Rng(t.params) |->
+                                      IF n \in Rng(t.params) THEN vals[CHOOSE i \in DOMAIN t.params : t.params[i] = n] ELSE env[n]])
       [] t.k = "exists" ->
             LET a == EvalD(t.l, env) b == EvalD(t.r, env)
             IN  IF IsE(a) THEN a ELSE IF IsE(b) THEN b ELSE ExistsIn(a, b, t.retain)
